@@ -1151,6 +1151,9 @@ def construct(eng, n, st):
                 # the object is not weakly referenceable; runs no Python code; the callback runs when the referent dies
                 s_exc = s.clone()
                 eng.throw(s_exc, 'pybind11::error_already_set', line, 'weak reference could not be created')
+                hook = getattr(eng.cur_contract, 'on_weakref', None)
+                if hook:
+                    hook(eng, s, vals, n)
                 outs.append((s, PyObj(fresh('weakref', Ref), fresh=True)))
             else:
                 raise Unsupported(f'construction of {t} from {vals!r} at L{line}')
